@@ -100,6 +100,17 @@ type Artifact struct {
 }
 
 func (ap *app) assemble(ctx context.Context, foundErr error) *Result {
+	// The act starts and the end of the mood periods are recorded by
+	// the audition, not by the collector: the time range must contain
+	// them too (an act without actions would otherwise start beyond
+	// the end of the time axis).
+	for _, acn := range ap.auRes.actChanges {
+		ap.expandTimeRange(acn.ts)
+	}
+	for _, mp := range ap.auRes.moodPeriods {
+		ap.expandTimeRange(mp.endTime)
+	}
+
 	// Sanity checking.
 	if math.IsInf(ap.maxTime, 0) || math.IsInf(ap.minTime, 0) {
 		ap.expandTimeRange(0)
